@@ -11,6 +11,7 @@ import Emu.Proofs.Interleave
 import Emu.Bt.Server
 import Emu.Proofs.LeafTie.ValidateFilter
 import Emu.Proofs.LeafTie.IncludeCell
+import Emu.Proofs.LeafTie.ModifyCell
 
 namespace Emu.Props.C05
 open Emu Emu.Bt Emu.Proofs.Filter Emu.Proofs.Regex
@@ -203,5 +204,20 @@ theorem source_includeCell_is_the_models (f : Filter) (fam qual : Bytes) (c : Ce
 
 example : Emu.Generated.Leaf.includeCell (.valueRange (.opened []) .unset) [102] [113] ⟨1000, [], []⟩ = false ∧
     Emu.Generated.Leaf.includeCell (.columnRange [102] (.closed [97]) (.opened [99])) [102] [98] ⟨0, [1], []⟩ = true := by decide
+
+/-- And the repository's own text of the two transformers that change a cell (`modifyCell`: strip the
+    value; apply a label), cell literals read field by field, is the Model's `modifyCell` on every
+    filter that passes validation; its own label check is the one validation makes. -/
+theorem source_modifyCell_is_the_models (f : Filter) (c : Cell) (hv : validFilter f = true) :
+    Emu.Generated.Leaf.modifyCell f c = .ok (modifyCell f c) :=
+  Emu.Proofs.LeafTie.modifyCell_tie f c hv
+
+theorem source_modifyCell_rejects_exactly_malformed_labels (l : Bytes) (c : Cell) :
+    Emu.Generated.Leaf.modifyCell (.applyLabel l) c = .error () ↔ validLabel l = false :=
+  Emu.Proofs.LeafTie.modifyCell_error_iff l c
+
+example : Emu.Generated.Leaf.modifyCell .stripValue ⟨7000, [1, 2], [[108]]⟩ = .ok ⟨7000, [], []⟩ ∧
+    Emu.Generated.Leaf.modifyCell (.applyLabel [108]) ⟨7000, [1, 2], []⟩ = .ok ⟨7000, [1, 2], [[108]]⟩ := by
+  constructor <;> rfl
 
 end Emu.Props.C05
